@@ -15,6 +15,7 @@ import (
 	"net"
 	"os"
 	"sort"
+	"strings"
 	"syscall"
 	"time"
 
@@ -56,7 +57,19 @@ var c03Phantom = net.ParseIP("192.122.190.77").To4()
 var c03Other = net.ParseIP("192.122.190.99").To4()
 
 func c03Registry(kind string) *cj.RegistrationManager {
-	rm := vfix.Manager(nil, vfix.Selector(vfix.SubnetsTOML), &vfix.Tester{}, vfix.AllWrapping, nil)
+	var conf *cj.RegConfig
+	if strings.HasPrefix(kind, "blocklisted-phantom") {
+		// station configuration in which the probed phantom is on the phantom blocklist (e.g. added by a reload
+		// while registrations for it are still tracked): what a prober sees on it must not differ
+		conf = &cj.RegConfig{EnableIPv4: true, EnableIPv6: true, PhantomBlocklist: []string{"192.122.190.64/26"}}
+		if err := cj.VerifParseBlocklists(conf); err != nil {
+			vh.Fatal("phantom blocklist: %v", err)
+		}
+	}
+	rm := vfix.Manager(conf, vfix.Selector(vfix.SubnetsTOML), &vfix.Tester{}, vfix.AllWrapping, nil)
+	if conf != nil && !rm.IsBlocklistedPhantom(c03Phantom) {
+		vh.Fatal("the probed phantom is not covered by the configured phantom blocklist")
+	}
 	var anns []cj.VerifDetectorMsg
 	rm.VerifCaptureDetector(&anns)
 	pp := &pb.PrefixTransportParams{PrefixId: proto.Int32(1)}
@@ -66,7 +79,14 @@ func c03Registry(kind string) *cj.RegistrationManager {
 	addReg(rm, regSpec{secret: 12, tt: pb.TransportType_Prefix, params: pp, valid: true}, c03Other)
 	addReg(rm, regSpec{secret: 13, tt: pb.TransportType_Obfs4, params: gp, valid: true}, c03Other)
 	switch kind {
-	case "none":
+	case "none", "blocklisted-phantom":
+	case "geoip-v4only:client6":
+		// GeoIP database files that hold IPv4 networks only (a valid MaxMind DB with ip_version 4): every lookup of an
+		// IPv6 client address fails. The prober connects from an IPv6 address.
+		rm.GeoIP = c17V4OnlyGeoIP()
+		c03Client[rm] = net.ParseIP("2001:db8:77::77")
+	case "blocklisted-phantom+min":
+		addReg(rm, regSpec{secret: 1, tt: pb.TransportType_Min, params: gp, valid: true}, c03Phantom)
 	case "unvalidated":
 		addReg(rm, regSpec{secret: 1, tt: pb.TransportType_Min, params: gp, valid: false}, c03Phantom)
 		addReg(rm, regSpec{secret: 2, tt: pb.TransportType_Prefix, params: pp, valid: false}, c03Phantom)
@@ -98,6 +118,9 @@ type c03LateReg struct {
 
 var c03Late = map[*cj.RegistrationManager]*c03LateReg{}
 
+// c03Client: the prober's source address where a registry kind asks for a particular one (default 203.0.113.77)
+var c03Client = map[*cj.RegistrationManager]net.IP{}
+
 func runProbe(rm *cj.RegistrationManager, phantom net.IP, segs [][]byte, gaps []time.Duration, draw int64) probeResult {
 	vrand.Script = func(kind string, n int64) (float64, bool) {
 		if kind == "Int63n" {
@@ -106,7 +129,11 @@ func runProbe(rm *cj.RegistrationManager, phantom net.IP, segs [][]byte, gaps []
 		return 0, false
 	}
 	defer func() { vrand.Script = nil }()
-	conn := &vconn.Conn{Name: "client", Remote: &net.TCPAddr{IP: net.IPv4(203, 0, 113, 77), Port: 54321}, Local: &net.TCPAddr{IP: phantom, Port: 443}}
+	cip := net.IPv4(203, 0, 113, 77)
+	if ip := c03Client[rm]; ip != nil {
+		cip = ip
+	}
+	conn := &vconn.Conn{Name: "client", Remote: &net.TCPAddr{IP: cip, Port: 54321}, Local: &net.TCPAddr{IP: phantom, Port: 443}}
 	at := time.Duration(0)
 	for i, s := range segs {
 		if i > 0 {
@@ -457,7 +484,7 @@ func verifC03(a *vh.Args) {
 	e := venum.New(fmt.Sprintf("probes:shard%d/%d", a.ShardI, a.ShardN), a)
 	c03Thorough = a.Thorough()
 	streams := c03Streams(a)
-	regKinds := []string{"none", "unvalidated", "validated-after-refusal", "min", "prefix", "obfs4", "mixed3"}
+	regKinds := []string{"none", "unvalidated", "validated-after-refusal", "min", "prefix", "obfs4", "mixed3", "blocklisted-phantom", "blocklisted-phantom+min", "geoip-v4only:client6"}
 	sleepPath := map[string]bool{}
 	n := 0
 	for _, rk := range regKinds {
